@@ -118,6 +118,8 @@ def spec (op : String) (a : List Q) : Option String :=
   | "crossm" => some (showL (SV.toList (crossmMat (sv a 0) * sv a 6)))
   | "crossf" => some (showL (SV.toList (SM.tmulVec (crossmMat (sv a 0)) (-(sv a 6)))))
   | "qrotate" => some (showL (V3.toList ((quat a 0).toMatrix * v3 a 4)))
+  -- fromMatrix (toMatrix p) is a unit quaternion with the same matrix (= ±p), for every unit p
+  | "qroundtrip" => some (showL ((1 : Q) :: m3L (quat a 0).toMatrix))
   | "qmul" => none
   | _ => none
 
